@@ -141,6 +141,15 @@ def main():
     if not proof["proof_ok"]:
         print(proof["log"][-1500:])
 
+    # thorough tier: independent re-check of the compiled proofs
+    if tier == "thorough" and proof["proof_ok"]:
+        rc, out = sh(["lake", "env", "leanchecker"] + proof["modules"], cwd=LEAN_DIR, timeout=1800)
+        proof["leanchecker"] = "ok" if rc == 0 else "FAILED: " + out[-300:]
+        print(f"[{pid}] leanchecker: {proof['leanchecker'][:80]}")
+        if rc != 0:
+            proof["proof_ok"] = False
+            proof["broken"].append("leanchecker rejected the compiled modules")
+
     # 4./5. correspondence
     import vclock  # noqa
     real = vclock.real_monotonic
@@ -334,6 +343,7 @@ def main():
                 "checker_cmd": proof.get("build_cmd", "") + " ; " + proof.get("audit_cmd", ""),
                 "trusted_base": TRUSTED_BASE_COMMON + list(getattr(mod, "TRUSTED", [])),
                 "theorems": list(mod.THEOREMS), "axioms_used": proof.get("axioms_used", []),
+                "leanchecker": proof.get("leanchecker", "not run (thorough tier only)"),
                 "evaluations": stats["evaluations"], "distinct_nontrivial": len(stats["nontrivial"]),
                 "rule": mod.RULE, "samples": stats["samples"],
                 "traces_validated_against_impl": stats["agree"], "spec_on_impl": stats["spec_on_impl"],
